@@ -7,12 +7,13 @@ The oracle (specs/dt_spec.py) is pure integer arithmetic written from the proper
 """
 from __future__ import annotations
 
+import random
 import time
 from typing import Any, Dict, List, Optional, Tuple
 
 from efoli import EdifactFormat, EdifactFormatVersion
 
-from bounded.common import configure_inject, pmap, run as run_coro
+from bounded.common import configure_inject, in_fresh_child as common_in_fresh_child, pmap, run as run_coro
 from specs import dt_spec as S
 
 DAY = S.DAY
@@ -301,6 +302,73 @@ def _report(ctx, fails: List[dict]) -> None:
             reported += 1
 
 
+# ------------------------------------------------------------------------------------------------ (b') histories
+def switch_history(job: Tuple[int, int]) -> dict:
+    """one process, one DST switch: every half hour within +-36 h of the switch, in a seeded RANDOM order, each instant
+    in two notations x the four instant-judging constraints; every verdict is compared with the integer-arithmetic
+    spec.  A verdict that depends on which instants were judged before (a memo keyed too coarsely) shows here and not in
+    the ordered sweep.  -> {"evaluations", "failing": first failing (prefix of the order, fc, input) or None}"""
+    sw, seed = job
+    rng = random.Random(seed)
+    us = [sw + k * 1800 for k in range(-72, 73) if S.U_MIN <= sw + k * 1800 <= S.U_MAX]
+    rng.shuffle(us)
+    n = 0
+    done: List[Tuple[str, str]] = []
+    for u in us:
+        for label, o, zulu in (S.NOTATIONS[0], S.NOTATIONS[3]):
+            text = S.render(u, o, zulu)
+            for key in FCS[1:]:
+                n += 1
+                done.append((key, text))
+                kind, a, _b = _call(key, text)
+                exp = _expected(key, u, o)
+                if kind != "ok" or a != exp:
+                    return {"evaluations": n, "failing": {"switch": sw, "seed": seed, "fc": key, "input": text, "u": u,
+                                                          "observed": [kind, a], "expected": exp,
+                                                          "calls_before": len(done) - 1}}
+    return {"evaluations": n, "failing": None}
+
+
+def all_switch_histories(tier: str, seed: int) -> list:
+    """every switch history, run from a pristine interpreter state (entry point of the fresh interpreter)"""
+    rng = random.Random(seed + 20)
+    jobs = [(sw, rng.randrange(2 ** 30)) for sw, _off in S.SWITCHES for _ in range(3 if tier == "thorough" else 1)]
+    return pmap(switch_history, jobs, chunksize=1)
+
+
+def _run_switch_histories(ctx, tier: str, seed: int) -> None:
+    t0 = time.time()
+    from bounded.common import in_fresh_interpreter
+    results = in_fresh_interpreter("bounded.c20", "all_switch_histories", [tier, seed])
+    if results is None:
+        raise RuntimeError("C20 harness: the fresh interpreter running the switch histories failed")
+    jobs = results
+    ctx.bounded("histories around every DST switch in one process, random order",
+                evaluations=sum(r["evaluations"] for r in results), distinct_nontrivial=len(jobs),
+                rule="distinct (switch, order) histories; each judges ~145 instants (every half hour within 36 h of the "
+                     "switch) in 2 notations by 932..935, every verdict compared with the spec",
+                samples=[{"switch": S.SWITCHES[0][0]}], exhaustive=False,
+                bound=f"{len(jobs)} histories over all 84 switches 1996-2037", seconds=time.time() - t0)
+    reported = 0
+    for r in results:
+        f = r["failing"]
+        if not f or reported >= 3:
+            continue
+        again = in_fresh_interpreter("bounded.c20", "switch_history", [[f["switch"], f["seed"]]])
+        if not again or not again["failing"]:
+            ctx.note(f"C20 histories: failure for switch {f['switch']} did not reproduce (not reported)")
+            continue
+        g = again["failing"]
+        alone = _call(g["fc"], g["input"])
+        reported += 1
+        ctx.violation(obligation=f"bounded/history-independent-verdict/{g['fc']}/{reported}",
+                      message=(f"evaluate_{g['fc']}({g['input']!r}) gives {g['observed']} after {g['calls_before']} earlier "
+                               f"evaluations around the DST switch at u={g['switch']} (spec: {g['expected']}); the same call "
+                               f"in this process now gives {list(alone[:2])}"),
+                      witness=g, replayed=True, signature=f"history|{g['fc']}|{g['switch']}",
+                      replay_code=f"# in a NEW interpreter:\nfrom bounded import c20\nprint(c20.switch_history(({g['switch']}, {g['seed']})))")
+
+
 # ------------------------------------------------------------------------------------------------ entry point
 def run(ctx, tier: str, seed: int) -> None:
     ctx.trust("A-DATETIME (datetime.fromisoformat / astimezone / time arithmetic of CPython)",
@@ -364,6 +432,7 @@ def run(ctx, tier: str, seed: int) -> None:
         samples.append({"u": u, "notations": [S.render(u, o, z) for _, o, z in S.NOTATIONS[:4]],
                         "strom": S.strom(u), "gas": S.gas(u)})
     _report(ctx, fails)
+    _run_switch_histories(ctx, tier, seed)
     ctx.bounded("evaluate_931..935 on 8 notations of the same instant == strom(u)/gas(u)/zero-offset; message iff unfulfilled; "
                 "equal across notations",
                 evaluations=evaluations, distinct_nontrivial=len(nontrivial) * len({(o, z) for _, o, z in S.NOTATIONS}),
